@@ -12,6 +12,7 @@ import (
 	cfeminter "github.com/chain4energy/c4e-chain/x/cfeminter"
 	mintertypes "github.com/chain4energy/c4e-chain/x/cfeminter/types"
 	sdk "github.com/cosmos/cosmos-sdk/types"
+	banktypes "github.com/cosmos/cosmos-sdk/x/bank/types"
 	abci "github.com/tendermint/tendermint/abci/types"
 	"pgregory.net/rapid"
 )
@@ -180,6 +181,18 @@ func TestC10(t *testing.T) {
 				for _, in := range ins {
 					c.run.Inject(in.Acc, in.Denom, bigFromStr(in.Amt))
 					c.note("inflow %s", jsonStr(in))
+				}
+			},
+			"user_send_to_module_address": func(t *rapid.T) {
+				// an ordinary bank transfer addressed to one of the module accounts the distributor may use
+				// (the application blocks them as recipients; whether the transfer is accepted is the
+				// application's wiring, the blocks that follow must complete either way)
+				name := append(append([]string{}, distrModulePool...), distrtypes.DistributorMainAccount)[rapid.IntRange(0, len(distrModulePool)).Draw(t, "module")]
+				res := RunMsg(c.w.App, c.ctx.WithBlockTime(nsTime(c.now)).WithBlockHeight(c.height), &banktypes.MsgSend{FromAddress: KeyAcc(4).Addr.String(),
+					ToAddress: ModuleAddr(name).String(), Amount: sdk.NewCoins(sdk.NewInt64Coin(Denom, int64(rapid.IntRange(1, 1000).Draw(t, "amt"))))})
+				c.note("bank send of a user to the address of module account %s: ok=%v", name, res.OK())
+				if res.OK() {
+					c.classes["user_transfer_to_module_address_accepted"] = true
 				}
 			},
 			"update_minter": func(t *rapid.T) {
